@@ -576,8 +576,29 @@ def run_c19(ctx):
                 ovkv.append((k, v2))
         if r.random() < 0.1:
             (filekv if r.random() < 0.5 else ovkv).append(("no_such_key", "1"))
-        # where is the config file? level index from cwd upwards (0 = cwd); has[j] for each ancestor in dirs reversed
         anc = list(reversed(dirs))  # nearest first
+        if r.random() < 0.12:
+            # a configuration file that is found but cannot be read as text (saved as Latin-1 or UTF-16, or holding an
+            # unknown key behind such bytes) cannot override anything: it must be rejected before any file is touched,
+            # never skipped silently (found through the ancestor walk or named with --config-file)
+            variant = r.choice(["latin1", "utf16", "latin1_unknown_key"])
+            body = {"latin1": b"# r\xe9glages du projet\nline_ending = \"crlf\"\n",
+                    "utf16": b"\xff\xfe" + "line_ending = \"crlf\"\n".encode("utf-16-le"),
+                    "latin1_unknown_key": b"# \xe9\nasdf = 0\n"}[variant]
+            via_arg = r.random() < 0.4
+            lvl = r.randrange(len(anc))
+            cfp = os.path.join(anc[lvl], "style.cfg" if via_arg else "pasfmt.toml")
+            with open(cfp, "wb") as f:
+                f.write(body)
+            fp = os.path.join(cwd, "x.pas")
+            src0 = "a := b;\na"
+            open(fp, "w").write(src0)
+            rc, so, se = ctx.run((["--config-file", cfp] if via_arg else []) + ["x.pas"], cwd=cwd)
+            if rc == 0 or open(fp).read() != src0:
+                ctx.failures.append({"kind": "oracle", "what": "c19: a configuration file that cannot be read as text (%s, %s) was not rejected before touching files" % (variant, "--config-file" if via_arg else "ancestor walk"), "cfg": "-", "input_hex": "-", "family": "c19"})
+            ctx.bump("unreadable_config_" + variant)
+            continue
+        # where is the config file? level index from cwd upwards (0 = cwd); has[j] for each ancestor in dirs reversed
         has = [0] * len(anc)
         use_cfgfile_arg = r.random() < 0.15
         file_level = None
